@@ -135,6 +135,11 @@ def check_table(case):
                             continue
                         expected[(api, ver, fn)] = _read(t, api, flt, ver)
         data_paths = [p for c, p in targets if c == "data"]
+        # a long-lived handle that has already read everything successfully (caches must not weaken later reads)
+        with w.env():
+            t_warm = w.open()
+            for api in APIS:
+                _read(t_warm, api, None, None)
         for cls, path in targets:
             orig = fs.get(path)
             sibling = None
@@ -173,34 +178,18 @@ def check_table(case):
                         for (api, ver, fn), exp in expected.items():
                             needed = cls != "data" or (api != "row_count" and path in kept[fn])
                             must_raise = needed and (payload == "ERR" or not parse_ok or (cls == "data" and changed and ver is None))
-                            try:
-                                t2 = w.open()
+                            for handle_kind in ("fresh", "warm"):
+                              if handle_kind == "warm" and (cls != "data" or payload == "ERR"):
+                                  continue
+                              try:
+                                t2 = w.open() if handle_kind == "fresh" else t_warm
                                 got = _read(t2, api, filters[fn], ver)
-                            except Exception as e:  # noqa
+                              except Exception as e:  # noqa
                                 got = ("raise", type(e).__name__)
-                            key = f"{case['world']}|{cls}|{dname.split('@')[0]}|{api}|{ver}|{fn}"
-                            out["labels"].append(f"file:{cls}")
-                            if needed:
-                                out["labels"].append("needed")
-                                res_nontrivial.add(key)
-                            if got[0] == "raise":
-                                continue
-                            if must_raise:
-                                if got == exp:
-                                    sym = "returned-undamaged-answer"
-                                elif got[0] == "rows" and not got[1]:
-                                    sym = "reported-empty"
-                                elif got[0] == "rows" and exp[0] == "rows" and not (got[1] - exp[1]):
-                                    sym = "returned-subset"
-                                else:
-                                    sym = "returned-other"
-                                dn = dname.split("@")[0]
-                                if cls == "metadata" and dn == "delete":
-                                    sym = "served-older-version"  # one root cause, whatever the older version happens to contain
-                                out["violations"].append((f"fail-open/{cls}/{dn}/{sym}",
-                                                          f"{case['world']}: {cls} file {path} damaged by {dname}; {api}(verify={ver}, filter={fn}) returned {_short(got)} instead of raising (undamaged: {_short(exp)})"))
-                            elif not needed and got != exp:
-                                out["violations"].append((f"unneeded-damage-changed-answer/{cls}", f"{cls} file {path} ({dname}) is not needed by {api}(filter={fn}) but the answer changed"))
+                              if handle_kind == "warm":
+                                  out["labels"].append("warm-handle")
+                              _judge(out, res_nontrivial, case, cls, dname, path, api, ver, fn, exp, got, needed, must_raise, handle_kind)
+                            continue
                 finally:
                     if payload != "ERR":
                         _set(w, path, orig)
@@ -216,6 +205,34 @@ def check_table(case):
     out["violations"] = uniq
     out["labels"] = sorted(set(out["labels"]))
     return out
+
+
+
+def _judge(out, res_nontrivial, case, cls, dname, path, api, ver, fn, exp, got, needed, must_raise, handle_kind):
+    key = f"{case['world']}|{cls}|{dname.split('@')[0]}|{api}|{ver}|{fn}|{handle_kind}"
+    out["labels"].append(f"file:{cls}")
+    if needed:
+        out["labels"].append("needed")
+        res_nontrivial.add(key)
+    if got[0] == "raise":
+        return
+    if must_raise:
+        if got == exp:
+            sym = "returned-undamaged-answer"
+        elif got[0] == "rows" and not got[1]:
+            sym = "reported-empty"
+        elif got[0] == "rows" and exp[0] == "rows" and not (got[1] - exp[1]):
+            sym = "returned-subset"
+        else:
+            sym = "returned-other"
+        dn = dname.split("@")[0]
+        if cls == "metadata" and dn == "delete":
+            sym = "served-older-version"  # one root cause, whatever the older version happens to contain
+        hk = "" if handle_kind == "fresh" else "/warm-handle"
+        out["violations"].append((f"fail-open/{cls}/{dn}/{sym}{hk}",
+                                  f"{case['world']}: {cls} file {path} damaged by {dname}; {api}(verify={ver}, filter={fn}) through a {handle_kind} handle returned {_short(got)} instead of raising (undamaged: {_short(exp)})"))
+    elif not needed and got != exp:
+        out["violations"].append((f"unneeded-damage-changed-answer/{cls}", f"{cls} file {path} ({dname}) is not needed by {api}(filter={fn}) but the answer changed"))
 
 
 def _short(r):
@@ -239,7 +256,7 @@ def _set(w, path, data):
 
 
 def plan(tier, seed):
-    n = 3 if tier == "quick" else 40
+    n = 2 if tier == "quick" else 40
     return [{"n": n, "seed": seed * 1000 + s, "tier": tier} for s in range(16)]
 
 
